@@ -262,3 +262,51 @@ Proof.
   assert (r2 =? 0 = false) by (apply Z.eqb_neq; apply Z.gtb_lt in H2; lia).
   rewrite H, H0, H4, H5, H3. simpl. eexists. reflexivity.
 Qed.
+
+(** ---------- documented defaults of empty optional cells (docs/input_files.md) *)
+Lemma in_defaults r a : mk_in r = Ok a ->
+  (ri_crypto_fee r = None -> i_crypto_fee a = 0) /\
+  (ri_crypto_fee r = None -> ri_fiat_fee r = None -> i_fiat_fee a = g 0) /\
+  (forall c, ri_crypto_fee r = Some c -> 0 < c -> i_fiat_fee a = dmul (g c) (g (ri_spot r))) /\
+  (ri_fiat_in_no_fee r = None -> i_fiat_in_no_fee a = dmul (g (ri_crypto_in r)) (g (ri_spot r))) /\
+  (forall v, ri_fiat_in_no_fee r = Some v -> i_fiat_in_no_fee a = g v) /\
+  (ri_fiat_in_with_fee r = None -> i_fiat_in_with_fee a = dadd (i_fiat_in_no_fee a) (i_fiat_fee a)) /\
+  (forall v, ri_fiat_in_with_fee r = Some v -> i_fiat_in_with_fee a = g v).
+Proof.
+  unfold mk_in. intro H.
+  destruct (ri_spot r <? 0); [discriminate|].
+  destruct (negb (ttype_eqb (ri_type r) STAKING) && (ri_crypto_in r <=? 0)); [discriminate|].
+  destruct (ri_crypto_fee r) as [c|] eqn:C; destruct (ri_fiat_fee r) as [f|] eqn:F;
+    destruct (ri_fiat_in_no_fee r) as [n|] eqn:N; destruct (ri_fiat_in_with_fee r) as [w|] eqn:W;
+    unfold truthy in H; crack H; inversion H; subst; simpl;
+    repeat split; intros; try discriminate; try reflexivity;
+    repeat match goal with K : Some _ = Some _ |- _ => inversion K; clear K; subst end; try reflexivity;
+    try (match goal with K : (?c =? 0) = true |- _ => apply Z.eqb_eq in K; lia end);
+    try (match goal with K : negb (?c =? 0) = false |- _ => apply negb_false_iff in K; apply Z.eqb_eq in K; lia end).
+Qed.
+
+Lemma out_defaults r a : mk_out r = Ok a ->
+  (ro_crypto_out_with_fee r = None -> o_crypto_out_with_fee a = ro_crypto_out_no_fee r + ro_crypto_fee r) /\
+  (forall v, ro_crypto_out_with_fee r = Some v -> o_crypto_out_with_fee a = v) /\
+  (ro_fiat_out_no_fee r = None -> o_fiat_out_no_fee a = dmul (g (ro_crypto_out_no_fee r)) (g (ro_spot r))) /\
+  (forall v, ro_fiat_out_no_fee r = Some v -> o_fiat_out_no_fee a = g v) /\
+  (ro_fiat_fee r = None -> o_fiat_fee a = dmul (g (ro_crypto_fee r)) (g (ro_spot r))) /\
+  (forall v, ro_fiat_fee r = Some v -> o_fiat_fee a = g v) /\
+  o_fiat_out_with_fee a = dadd (o_fiat_out_no_fee a) (o_fiat_fee a).
+Proof.
+  unfold mk_out. intro H.
+  destruct (ro_crypto_out_with_fee r) as [w|] eqn:W; destruct (ro_fiat_out_no_fee r) as [n|] eqn:N; destruct (ro_fiat_fee r) as [f|] eqn:F;
+    crack H; inversion H; subst; simpl; repeat split; intros; try discriminate; try reflexivity;
+    repeat match goal with K : Some _ = Some _ |- _ => inversion K; clear K; subst end; reflexivity.
+Qed.
+
+Lemma intra_defaults r a : mk_intra r = Ok a ->
+  (rx_spot r = None -> x_spot a = 0) /\ (forall v, rx_spot r = Some v -> x_spot a = v) /\
+  x_fiat_fee a = dmul (g (rx_crypto_sent r - rx_crypto_received r)) (g (x_spot a)).
+Proof.
+  unfold mk_intra. intro H.
+  destruct (rx_spot r) as [v|] eqn:S; crack H; inversion H; subst; simpl; repeat split; intros; try discriminate; try reflexivity;
+    repeat match goal with K : Some _ = Some _ |- _ => inversion K; clear K; subst end;
+    repeat match goal with K : Ok _ = Ok _ |- _ => inversion K; clear K; subst end; try reflexivity;
+    try (match goal with K : (?c =? 0) = true |- _ => apply Z.eqb_eq in K; congruence end).
+Qed.
